@@ -34,7 +34,7 @@ impl Scenario for C09 {
     fn run_case(&self, spec: &CaseSpec, text: bool) -> CaseReport {
         let mut cs = spec.stream();
         let lc = LifeCfg {
-            consumer_ends: vec![ConsumerEnd::ClientCancel, ConsumerEnd::Inherit, ConsumerEnd::Inherit, ConsumerEnd::Drop],
+            consumer_ends: vec![ConsumerEnd::ClientCancel, ConsumerEnd::Inherit, ConsumerEnd::Inherit, ConsumerEnd::Drop, ConsumerEnd::DropWhole],
             channel_ends: vec![ChannelEnd::Normal, ChannelEnd::ServerClose { code: 0, text: String::new() }],
             conn_ends: vec![ConnEnd::Normal],
             max_threads: 3,
